@@ -44,13 +44,17 @@ MkChunk(leaf, content, cuts, opt) ==
                 encTag |-> IF opt.encTag # 255 THEN opt.encTag ELSE IF useD THEN opt.dataEnc ELSE 0,
                 v2 |-> opt.v2, nrows |-> Len(SelectSeq(reps, LAMBDA r : r = 0)),
                 bw |-> bw, idxRuns |-> RunStyle(idx, opt.idxStyle, 0),
-                crc |-> opt.crc, stats |-> NoStatsW, hmut |-> IF opt.hmutPage = k THEN opt.hmut ELSE [kind |-> "none"]]
+                crc |-> opt.crc, stats |-> NoStatsW, hmut |-> IF opt.hmutPage = k THEN opt.hmut ELSE [kind |-> "none"],
+                bmut |-> IF "bmut" \in DOMAIN opt /\ opt.bmutPage = k THEN opt.bmut ELSE [kind |-> "none"]]
     IN [type |-> leaf.type, tlen |-> leaf.tlen, maxDef |-> leaf.maxDef, maxRep |-> leaf.maxRep, path |-> leaf.path,
         codec |-> opt.codec, codecTag |-> IF opt.codecTag # 255 THEN opt.codecTag ELSE opt.codec, dict |-> dict, dictOffsetField |-> opt.dictOffsetField, dictEnc |-> opt.dictEnc,
         pages |-> [k \in 1..Len(cuts) |-> page(k)], stats |-> opt.stats, emptyDict |-> emptyD,
         \* hostile-file hook (C04): hmutPage = 0 addresses the header of the dictionary page
-        dhmut |-> IF opt.hmutPage = 0 THEN opt.hmut ELSE [kind |-> "none"]]
+        dhmut |-> IF opt.hmutPage = 0 THEN opt.hmut ELSE [kind |-> "none"],
+        \* body hook: bmutPage = 0 addresses the dictionary page, 99 nothing
+        dbmut |-> IF "bmut" \in DOMAIN opt /\ opt.bmutPage = 0 THEN opt.bmut ELSE [kind |-> "none"]]
 
 DefaultOpt == [style |-> "rle", idxStyle |-> "rle", useDict |-> FALSE, dictOffsetField |-> TRUE, dictEnc |-> 0, dataEnc |-> 8,
-               crc |-> "none", codec |-> 0, stats |-> NoStatsW, extraWidth |-> 0, v2 |-> FALSE, encTag |-> 255, codecTag |-> 255, hmutPage |-> 0, hmut |-> [kind |-> "none"], mixEnc |-> "all", minW0 |-> FALSE, emptyDict |-> FALSE]
+               crc |-> "none", codec |-> 0, stats |-> NoStatsW, extraWidth |-> 0, v2 |-> FALSE, encTag |-> 255, codecTag |-> 255, hmutPage |-> 0, hmut |-> [kind |-> "none"], mixEnc |-> "all", minW0 |-> FALSE, emptyDict |-> FALSE,
+               bmutPage |-> 99, bmut |-> [kind |-> "none"]]
 =============================================================================
